@@ -14,7 +14,8 @@ import (
 func prepareValues(values []interface{}, db *DB, columnTypes []*sql.ColumnType, columns []string) {
 	if db.Statement.Schema != nil {
 		for idx, name := range columns {
-			if field := db.Statement.Schema.LookUpField(name); field != nil {
+			// a serialized field's column does not hold the field's Go type: scan it as it is
+			if field := db.Statement.Schema.LookUpField(name); field != nil && field.Serializer == nil {
 				values[idx] = reflect.New(reflect.PointerTo(field.FieldType)).Interface()
 				continue
 			}
